@@ -11,7 +11,8 @@ package xsurveyor
 //@   lock Mutex level 20
 //@   guarded_by Mutex: closed pipes recvQLen sendQLen recvExpire recvQ sizeQ
 //@   immutable: closeQ
-//@   elem_invariant recvQ: !shared(elem)
+//@   never_closed: recvQ
+//@   elem_invariant recvQ: elem != nil && !shared(elem)
 //@
 //@ func (*socket).RemovePipe
 //@   assumes cast("*pipe", pp.GetPrivate()).s == s
@@ -40,3 +41,7 @@ package xsurveyor
 //@
 //@ func (*pipe).receiver
 //@   before call:close#1 assert m == nil || selidx == 1
+//@
+//@ func (*socket).OpenContext
+//@   modifies none
+//@   ensures isnil(result0) && result1 == protocol.ErrProtoOp
